@@ -321,6 +321,26 @@ theorem walkStep_tracks_ray (q : Quant K) (hq : LawfulQuant q) (h : HF3 K) (hi :
       rw [e1, e2, min_eq_right (le_of_lt hgt), add_zero]
       exact ⟨ax2 rz az1 (le_of_lt hgt), az3⟩
 
+/-- **The `max_time_of_impact` break is sound for the centre**: when both boundary times exceed `max_time_of_impact`, the centre
+ray point stays in the closed rectangle of the current cell up to `max_time_of_impact` — no further cell of the centre ray is
+due (the block around that cell is already in the trace, `walkLoop_covered`). -/
+theorem walk_break_maxToi_sound (q : Quant K) (hq : LawfulQuant q) (h : HF3 K) (hi : 0 < h.ni) (hj : 0 < h.nj)
+    (hsx : 0 < h.scale.x) (hsz : 0 < h.scale.z) (o d : V3 K) (maxToi : K) (hx : d.x ≠ 0) (hz : d.z ≠ 0)
+    (c : Int × Int) (t : K) (hin : InCell sq q h c (o.x + t * d.x) (o.z + t * d.z))
+    (hbx : maxToi < @boundaryTime K (fieldNum K sq) (XL sq q h) c.2 o.x d.x)
+    (hbz : maxToi < @boundaryTime K (fieldNum K sq) (ZL sq q h) c.1 o.z d.z) :
+    ∀ u, t ≤ u → u ≤ maxToi → InCell sq q h c (o.x + u * d.x) (o.z + u * d.z) := by
+  have hwx : (0 : K) < 1 / (h.nj : K) * h.scale.x := by
+    have : (0 : K) < (h.nj : K) := by exact_mod_cast hj
+    positivity
+  have hwz : (0 : K) < 1 / (h.ni : K) * h.scale.z := by
+    have : (0 : K) < (h.ni : K) := by exact_mod_cast hi
+    positivity
+  obtain ⟨-, ax2, -⟩ := axis_tracks sq (XL sq q h) _ hwx (XL_succ sq q hq h) c.2 o.x d.x t hx hin.1
+  obtain ⟨-, az2, -⟩ := axis_tracks sq (ZL sq q h) _ hwz (ZL_succ sq q hq h) c.1 o.z d.z t hz hin.2
+  intro u hu1 hu2
+  exact ⟨ax2 u hu1 (le_trans hu2 (le_of_lt hbx)), az2 u hu1 (le_trans hu2 (le_of_lt hbz))⟩
+
 /-- The end-to-end statement that is NOT proved here: whenever the (loosened) box of the moving shape, translated by `t·vel`
 for some `t ∈ [0, max_time_of_impact]`, overlaps the open rectangle of an in-field cell `(i, j)` (and the vertical range of
 the field), the trace of the walk contains `(i, j)`.  Proved parts: the cell always moves (`cellMove_clamped_moves`), the
